@@ -74,6 +74,20 @@ def check_defn(acc, task, func, state, cfg):
             return
 
 
+# Property C04 is about the event-, frame- and note-based scores.  The interval / label based families have their own
+# properties (chord: C10-C12, segment labelling: C16, hierarchy: C17) and are deliberately NOT compared under C04, so
+# that a change which only breaks one of those is never reported as a C04 violation.
+C04_EXCLUDED_TASKS = ("chord", "hierarchy")
+C04_EXCLUDED_FUNCS = ("segment.pairwise", "segment.rand_index", "segment.ari", "segment.mutual_information",
+                      "segment.nce", "segment.vmeasure")
+
+
+def c04_funcs(task):
+    if task.name in C04_EXCLUDED_TASKS:
+        return []
+    return [f for f in task.funcs if f.name not in C04_EXCLUDED_FUNCS]
+
+
 def shard_defn(arg):
     taskname, which, tier, phase, lo, hi = arg
     task = base.load(taskname)
@@ -83,7 +97,7 @@ def shard_defn(arg):
         acc.states += 1
         if nontrivial_pair(state):
             acc.nontrivial += 1
-        for func in task.funcs:
+        for func in c04_funcs(task):
             for cfg in func.configs(tier):
                 acc.tick(lambda: case_of(task, func, state, cfg))
                 check_defn(acc, task, func, state, cfg)
